@@ -1079,7 +1079,20 @@ def real_ops(w, F, fop, has_trial):
     if fop == "action":
         return [("action", 0, call(lambda: ufl.action(F, wcoef)))]
     if fop == "energy_norm":
-        return [("energy_norm", 0, call(lambda: ufl.energy_norm(F, wcoef)))]
+        out = [("energy_norm", 0, call(lambda: ufl.energy_norm(F, wcoef)))]
+        if not isinstance(wcoef, (list, tuple)):
+            # the other entry: no coefficient given.  a(f, f) for ONE new coefficient f: the result must mention exactly
+            # one coefficient that F does not, and with f := w it is the same functional as energy_norm(F, w)
+            def default_entry():
+                R = ufl.energy_norm(F)
+                old = set(F.coefficients())
+                new = [c for c in R.coefficients() if c not in old]
+                if len(new) != 1 and not R.empty():
+                    raise RuntimeError(f"energy_norm(a) without a coefficient mentions {len(new)} new coefficients instead of one")
+                return ufl.replace(R, {new[0]: wcoef}) if new else R
+
+            out.append(("energy_norm:default-coefficient", 0, call(default_entry)))
+        return out
     if fop == "adjoint":
         return [("adjoint", 0, call(lambda: ufl.adjoint(F)))]
     raise MachineryError(f"unknown form operator {fop}")
